@@ -10,6 +10,7 @@ mod schemes;
 mod g_sess;
 mod g_pipe;
 mod g_pad;
+mod g_auth;
 
 use std::io::Write;
 use util::*;
@@ -30,6 +31,7 @@ fn group_by_name(name: &str) -> Option<Box<dyn Group>> {
         "sess" => Some(Box::new(g_sess::SessGroup)),
         "pipe" => Some(Box::new(g_pipe::PipeGroup)),
         "pad" => Some(Box::new(g_pad::PadGroup)),
+        "auth" => Some(Box::new(g_auth::AuthGroup)),
         _ => None,
     }
 }
